@@ -92,10 +92,15 @@ def main():
     # run the check against the change
     rc, out = sh("git apply %s" % os.path.join(dst, "patch.diff"), cwd="/repo")
     assert rc == 0, out
+    ev = os.path.join(VERIF, "evidence", "%s.json" % prop)
+    ev_saved = open(ev).read() if os.path.exists(ev) else None
     try:
         crc, cout = sh("./check %s --tier %s" % (prop, tier), cwd=VERIF, env=dict(os.environ, VERIF_SEED=seed))
     finally:
         sh("git checkout -- .", cwd="/repo")
+        # the evidence file of a run against a seeded change is not evidence about /repo: restore
+        if ev_saved is not None:
+            open(ev, "w").write(ev_saved)
     lines = [l for l in cout.splitlines() if l.startswith("VIOLATION") or l.startswith("KNOWN-FINDING") or l.startswith("INFRA")]
     replays = []
     for l in lines:
